@@ -171,6 +171,7 @@ class Run:
 
 
 STATELESS = {"res", "stream"}
+# verdict lines may carry several failing clauses separated by " ;; "
 
 
 class Corr:
@@ -186,6 +187,7 @@ class Corr:
         self.samples = []
         self.distinct = set()
         self.nontrivial = 0
+        self.ok_unmodelled = 0
 
     def absorb(self, seed, verdicts, stats, tr):
         for k, v in stats.items():
@@ -208,8 +210,10 @@ class Corr:
                     self.distinct.add(h)
                     if self.nontrivial_fn(line):
                         self.nontrivial += 1
-                if v == "ok":
+                if v == "ok" or v.startswith("ok "):
                     self.ok += 1
+                    if v != "ok":
+                        self.ok_unmodelled += 1
                     if len(self.samples) < 3 and self.lines % 977 == 1:
                         self.samples.append(json.loads(line))
                 else:
